@@ -133,6 +133,18 @@ CHECKS = {
             '(quick) / 2..5 (thorough), byte pairs from a small alphabet.',
             'TLC model checking of the extracted netlist under Kernel semantics against the link specification; replay; TLC trace validation',
             'DESIGN.md section 4, C17'),
+    'C03': ('model_checking',
+            'Every design (each library block of the catalogue inside a structural top at several widths/parameters; seeded '
+            'compositions with fan-out, feedback through registers, mixed-width and repeated kinds with different optional ports; the '
+            'same with hostile wire/port/instance names: reserved words, clk, names colliding after the w_/i_ prefixes; repeated and '
+            'sub-block requests on the same generator) is generated, parsed by a syntax-only front end, and the AST plus the interface '
+            'table of the live objects is judged by TLC against the static semantics VerilogWF.tla (declared once, no reserved word, '
+            'every use declared, modules defined once with the ports/widths/directions the instances connect, one driver of the right '
+            'kind per net, objects sharing a module name interchangeable). Text no Verilog-2001 production admits is a violation.',
+            'front end covers the subset the emitters may produce (other legal constructs are counted as unsupported, not judged); an '
+            'inlinable primitive used as generation root (emitted with an explicit out-of-scope warning) is not a design.',
+            'TLC evaluation of a static-semantics specification over parsed emitted files',
+            'DESIGN.md section 4, C03'),
 }
 
 PENDING = {}
